@@ -8,6 +8,7 @@ an anchor has vanished (never a silent pass).
 from __future__ import annotations
 
 import ast
+import json
 import hashlib
 import os
 from dataclasses import dataclass, field
@@ -39,6 +40,81 @@ def _canonicalise(tree):
                 n.test, n.body, n.orelse = t.operand, n.orelse, n.body
 
 
+def param_signature(fn) -> list[tuple[str, str]]:
+    """(kind, name) of every parameter in declaration order"""
+    a = fn.args
+    out = [("p", x.arg) for x in a.posonlyargs] + [("a", x.arg) for x in a.args]
+    if a.vararg:
+        out.append(("v", a.vararg.arg))
+    out += [("k", x.arg) for x in a.kwonlyargs]
+    if a.kwarg:
+        out.append(("w", a.kwarg.arg))
+    return out
+
+
+_PARAM_REF: dict | None = None
+
+
+def _param_ref() -> dict:
+    global _PARAM_REF
+    if _PARAM_REF is None:
+        p = os.path.join(os.path.dirname(os.path.abspath(__file__)), "param_ref.json")
+        try:
+            with open(p) as fh:
+                _PARAM_REF = json.load(fh)
+        except OSError:
+            _PARAM_REF = {}
+    return _PARAM_REF
+
+
+def _restore_param_names(mod: "ModuleInfo"):
+    """behaviour-preserving normal form, part 2: a parameter that was renamed (same function, same position, same
+    parameter kinds) is alpha-renamed back to the name the rules know it by (sa/param_ref.json), so that rules talk
+    about "the 2nd parameter of X" rather than about a spelling.  Done only when the renaming cannot capture:
+    the reference name occurs nowhere in the function, and no nested scope rebinds the current name."""
+    ref = _param_ref().get(mod.rel)
+    if not ref:
+        return
+    for q, f in mod.functions.items():
+        want = ref.get(q)
+        if not want:
+            continue
+        cur = param_signature(f.node)
+        want = [tuple(w.split(":", 1)) for w in want]
+        if len(cur) != len(want) or [k for k, _ in cur] != [k for k, _ in want]:
+            continue
+        cur_names = {n for _k, n in cur}
+        todo = {c: w for (_k, c), (_k2, w) in zip(cur, want) if c != w}
+        if not todo or any(w in cur_names for w in todo.values()):
+            continue  # nothing renamed, or a permutation (names still present): rules resolve by name
+        used = set()
+        rebound = set()
+        for n in ast.walk(f.node):
+            if isinstance(n, ast.Name):
+                used.add(n.id)
+            elif isinstance(n, (ast.Global, ast.Nonlocal)):
+                used.update(n.names)
+                rebound.update(n.names)
+            elif isinstance(n, ast.arg) and n.arg not in cur_names:
+                used.add(n.arg)
+            elif isinstance(n, ast.ExceptHandler) and n.name:
+                used.add(n.name)
+            elif isinstance(n, (ast.FunctionDef, ast.AsyncFunctionDef, ast.ClassDef)) and n is not f.node:
+                used.add(n.name)
+            elif isinstance(n, ast.alias):
+                used.add((n.asname or n.name).split(".")[0])
+            if isinstance(n, (ast.FunctionDef, ast.AsyncFunctionDef, ast.Lambda)) and n is not f.node:
+                rebound.update(nm for _k, nm in param_signature(n))
+        for c, w in todo.items():
+            if w in used or c in rebound:
+                continue
+            for n in ast.walk(f.node):
+                if isinstance(n, ast.Name) and n.id == c:
+                    n.id = w
+                elif isinstance(n, ast.arg) and n.arg == c:
+                    n.arg = w
+
+
 class ModuleInfo:
     def __init__(self, rel: str, source: str):
         self.rel = rel
@@ -57,6 +133,8 @@ class ModuleInfo:
         self.imports: dict[str, str] = {}  # local name -> "module:name" / "module"
         self._collect(self.tree.body, "", None)
         self._collect_imports()
+        if os.environ.get("VERIF_NO_CANON") != "1" and os.environ.get("VERIF_NO_PARAM_CANON") != "1":
+            _restore_param_names(self)
 
     @property
     def parents(self) -> ParentMap:
